@@ -458,6 +458,9 @@ func runC07Wire(w *bufio.Writer, seed uint64, n int, args []string) {
 		}
 	}
 	clients := map[string]int{}
+	if only < 0 {
+		c07wFixedCongestionLimited(w, st)
+	}
 	for i := 0; i < n; i++ {
 		c := c07wGen(r)
 		if only >= 0 && i != only {
@@ -500,4 +503,130 @@ func runC07Wire(w *bufio.Writer, seed uint64, n int, args []string) {
 	}
 	fmt.Fprintf(w, "DIST\tconnections\t%d\nDIST\tfailed-dials\t%d\nDIST\tack-frames-sent\t%d\nDIST\tack-ranges-sent\t%d\nDIST\t1rtt-packets-processed\t%d\nDIST\t1rtt-ack-eliciting-processed\t%d\nDIST\tdatagrams-duplicated-by-router\t%d\nDIST\tpackets-dropped-as-duplicate\t%d\nDIST\tmax-observed-ack-delay-us\t%d\nDIST\textra-server-connections\t%d\nDIST\tack-eliciting-packets-forgotten-before-ack\t%d\n",
 		st.conns, st.failedDials, st.acks, st.ackRanges, st.recv1rtt, st.elic1rtt, st.dupFaultsHit, st.dupDropped, st.maxAckDelay.Microseconds(), st.extraConns, st.forgotten)
+}
+
+// c07wFixedCongestionLimited (fixed, every seed): the client is congestion limited - it wrote more
+// than a congestion window into a path that swallows everything it sends, so no ACK frees the
+// window and its send mode is SendAck - when one lone ack-eliciting 1-RTT packet of the server
+// arrives (no ACK frame in it: the server has received nothing new). The client must still send
+// an ACK covering it within max_ack_delay: the run loop has to wake up for the ACK alarm although
+// it cannot send data. RTT 400 ms keeps the PTO far away from the alarm.
+func c07wFixedCongestionLimited(w *bufio.Writer, st *c07wStats) {
+	desc := "fixed: client congestion limited (100 KB written, client->server blackholed), then one lone ack-eliciting server packet; rtt=400ms"
+	var fails []monFail
+	fail := func(key, d string) { fails = append(fails, monFail{key, d}) }
+	var cliLogs [][]c07wEvent
+	var end, loneSent time.Duration
+	err := inBubble(func() {
+		var mu sync.Mutex
+		blackholeC2S := false
+		var recMu sync.Mutex
+		var cliRecs []*c07wRecorder
+		startT := time.Now()
+		o := simOpts{
+			RTT:       400 * time.Millisecond,
+			PlainPath: true,
+			RandDrop: func(dir, idx int) bool {
+				mu.Lock()
+				defer mu.Unlock()
+				return dir == 0 && blackholeC2S
+			},
+			ServerConf: &quic.Config{MaxIdleTimeout: 60 * time.Second},
+			ClientConf: &quic.Config{MaxIdleTimeout: 60 * time.Second,
+				Tracer: func(context.Context, bool, quic.ConnectionID) qlogwriter.Trace {
+					r := &c07wRecorder{start: startT}
+					recMu.Lock()
+					cliRecs = append(cliRecs, r)
+					recMu.Unlock()
+					return r
+				}},
+		}
+		e, err := newSimEnv(o)
+		if err != nil {
+			fail("c07wire/env", err.Error())
+			return
+		}
+		defer e.Close()
+		startT = e.Start
+		ctx, cancel := context.WithTimeout(context.Background(), 120*time.Second)
+		defer cancel()
+		srvStream := make(chan *quic.Stream, 1)
+		go func() {
+			conn, err := e.Ln.Accept(ctx)
+			if err != nil {
+				return
+			}
+			s, err := conn.AcceptStream(ctx)
+			if err != nil {
+				return
+			}
+			buf := make([]byte, 1)
+			io.ReadFull(s, buf)
+			srvStream <- s
+			<-ctx.Done()
+		}()
+		conn, err := e.Dial(ctx)
+		if err != nil {
+			fail("c07wire/fixed-scenario", "dial failed: "+err.Error())
+			return
+		}
+		cs, err := conn.OpenStreamSync(ctx)
+		if err != nil {
+			fail("c07wire/fixed-scenario", err.Error())
+			return
+		}
+		cs.Write([]byte{1})
+		var ss *quic.Stream
+		select {
+		case ss = <-srvStream:
+		case <-ctx.Done():
+			fail("c07wire/fixed-scenario", "server did not get the stream")
+			return
+		}
+		time.Sleep(3 * time.Second) // everything acknowledged, no ACK pending on either side
+		mu.Lock()
+		blackholeC2S = true
+		mu.Unlock()
+		go cs.Write(make([]byte, 100000)) // more than the congestion window; blocks
+		time.Sleep(300 * time.Millisecond)
+		loneSent = time.Since(e.Start)
+		ss.Write([]byte{2}) // one lone ack-eliciting packet towards the client
+		time.Sleep(450 * time.Millisecond)
+		end = time.Since(e.Start)
+		conn.CloseWithError(0, "")
+		cancel()
+		time.Sleep(50 * time.Millisecond)
+		recMu.Lock()
+		for _, r := range cliRecs {
+			r.mu.Lock()
+			cliLogs = append(cliLogs, append([]c07wEvent(nil), r.evs...))
+			r.mu.Unlock()
+		}
+		recMu.Unlock()
+	})
+	if err != nil && !strings.Contains(err.Error(), "deadlock") {
+		fail("c07wire/panic", err.Error())
+	}
+	lone := 0
+	for i, l := range cliLogs {
+		for _, ev := range l {
+			if ev.kind == 'r' && ev.is1 && ev.elic && ev.t > loneSent {
+				lone++
+			}
+		}
+		c07wCheckSide(fmt.Sprintf("client#%d", i), l, end, fail, st)
+	}
+	if lone != 1 && len(fails) == 0 {
+		fmt.Fprintf(w, "INFO\tc07wire fixed scenario: %d lone packets reached the client (expected 1)\n", lone)
+	}
+	st.conns++
+	fmt.Fprintf(w, "CASE 1 %s\n", desc)
+	seen := map[string]bool{}
+	for _, f := range fails {
+		if !seen[f.key] {
+			seen[f.key] = true
+			fmt.Fprintf(w, "MONFAIL\t%s\t%s\t%s\n", f.key, f.desc, desc)
+		}
+	}
+	fmt.Fprintf(w, "DIST\tfixed-congestion-limited-lone-packets\t%d\n", lone)
 }
